@@ -330,7 +330,9 @@ def validate_blocks(ctx, module, trace_path, invariants, classify=None, max_know
         bi = block_of_event(blocks, res["l"] or 1)
         blk = blocks[bi]
         # cut the block at the failing event for the replay file
-        key = classify(blk, res["violated"]) if classify else None
+        n_before = sum(len(b) for b in blocks[:bi])
+        idx = (res["l"] or 1) - 1 - n_before          # 1-based index of the failing event within the block
+        key = classify(ctx, blk, res["violated"], idx, invariants) if classify else None
         hit = next((k for k in known if k["key"] == key), None) if key else None
         if hit:
             if hit["key"] not in reported:
